@@ -17,3 +17,11 @@ func setInnerYields(b bool) { innerYields = b }
 
 //go:norace
 func getInnerYields() bool { return innerYields }
+
+var autoDensity, autoSalt uint32
+
+//go:norace
+func setAuto(d, salt uint32) { autoDensity, autoSalt = d, salt }
+
+//go:norace
+func getAuto() (uint32, uint32) { return autoDensity, autoSalt }
